@@ -11,7 +11,7 @@ From Gen Require Import M_base M_Angle M_Interpolation.
 From Proofs.C12 Require C12_defs C12_main C12_gen C12_gend C12_rootany C12_order C12_set C12_poly.
 From Coq Require Import Permutation Sorted.
 From Spec Require Newton.
-From Proofs.C12 Require Import C12_tac C12_nd C12_dup3 C12_ctor3 C12_ctor4 C12_ideal C12_root C12_witness.
+From Proofs.C12 Require Import C12_tac C12_ideal C12_root C12_witness.
 Import ListNotations.
 Open Scope R_scope.
 
@@ -60,165 +60,12 @@ Proof.
   [apply call_below | apply call_above | apply deriv_below | apply deriv_above]; assumption.
 Qed.
 
-(* [ideal] _newton_diff(0, k) on a symbolic four-point table (abscissae ascending, at least tol apart) is the
-   divided difference f[x1..x(k+1)], whatever the coefficient table holds at that moment (0..4 entries);
-   the recursion of the generated function is followed level by level (C12_nd.v; also for three points) *)
-Theorem C12_newton_diff : forall x1 x2 x3 x4 y1 y2 y3 y4 tb,
-  x1 + tol0 <= x2 -> x2 + tol0 <= x3 -> x3 + tol0 <= x4 -> (List.length tb <= 4)%nat ->
-  let T := obj [x1; x2; x3; x4] [y1; y2; y3; y4] tb in
-  Interpolation__newton_diff Rops T (VInt 0) (VInt 0) = VFloat y1 /\
-  Interpolation__newton_diff Rops T (VInt 0) (VInt 1) = VFloat (dd2 x1 x2 y1 y2) /\
-  Interpolation__newton_diff Rops T (VInt 0) (VInt 2) = VFloat (dd3 x1 x2 x3 y1 y2 y3) /\
-  Interpolation__newton_diff Rops T (VInt 0) (VInt 3) = VFloat (dd4 x1 x2 x3 x4 y1 y2 y3 y4).
-Proof.
-  intros. repeat split; [apply top4_0 | apply top4_1 | apply top4_2 | apply top4_3]; assumption.
-Qed.
-
-(* [ideal, n = 3 and n = 4 only] the constructor on symbolic tables: for x1 < x2 < x3 (< x4) at least tol apart, EVERY order of the
-   points and each input form (two lists, two tuples, interleaved scalars, and the copy constructor) yields
-   the same object: abscissae sorted, ordinates following, divided differences as coefficient table *)
-Theorem C12_constructor_3 : forall x1 x2 x3 y1 y2 y3, x1 + tol0 <= x2 -> x2 + tol0 <= x3 ->
-  let R0 := obj [x1; x2; x3] [y1; y2; y3] (tab3 x1 x2 x3 y1 y2 y3) in
-  (Interpolation___init__ Rops blank (VTuple [flist [x1; x2; x3]; flist [y1; y2; y3]]) = R0 /\
-   Interpolation___init__ Rops blank (VTuple [VTuple (map VFloat [x1; x2; x3]); VTuple (map VFloat [y1; y2; y3])]) = R0 /\
-   Interpolation___init__ Rops blank (VTuple [VFloat x1; VFloat y1; VFloat x2; VFloat y2; VFloat x3; VFloat y3]) = R0) /\
-  (Interpolation___init__ Rops blank (VTuple [flist [x1; x3; x2]; flist [y1; y3; y2]]) = R0 /\
-   Interpolation___init__ Rops blank (VTuple [VTuple (map VFloat [x1; x3; x2]); VTuple (map VFloat [y1; y3; y2])]) = R0 /\
-   Interpolation___init__ Rops blank (VTuple [VFloat x1; VFloat y1; VFloat x3; VFloat y3; VFloat x2; VFloat y2]) = R0) /\
-  (Interpolation___init__ Rops blank (VTuple [flist [x2; x1; x3]; flist [y2; y1; y3]]) = R0 /\
-   Interpolation___init__ Rops blank (VTuple [VTuple (map VFloat [x2; x1; x3]); VTuple (map VFloat [y2; y1; y3])]) = R0 /\
-   Interpolation___init__ Rops blank (VTuple [VFloat x2; VFloat y2; VFloat x1; VFloat y1; VFloat x3; VFloat y3]) = R0) /\
-  (Interpolation___init__ Rops blank (VTuple [flist [x2; x3; x1]; flist [y2; y3; y1]]) = R0 /\
-   Interpolation___init__ Rops blank (VTuple [VTuple (map VFloat [x2; x3; x1]); VTuple (map VFloat [y2; y3; y1])]) = R0 /\
-   Interpolation___init__ Rops blank (VTuple [VFloat x2; VFloat y2; VFloat x3; VFloat y3; VFloat x1; VFloat y1]) = R0) /\
-  (Interpolation___init__ Rops blank (VTuple [flist [x3; x1; x2]; flist [y3; y1; y2]]) = R0 /\
-   Interpolation___init__ Rops blank (VTuple [VTuple (map VFloat [x3; x1; x2]); VTuple (map VFloat [y3; y1; y2])]) = R0 /\
-   Interpolation___init__ Rops blank (VTuple [VFloat x3; VFloat y3; VFloat x1; VFloat y1; VFloat x2; VFloat y2]) = R0) /\
-  (Interpolation___init__ Rops blank (VTuple [flist [x3; x2; x1]; flist [y3; y2; y1]]) = R0 /\
-   Interpolation___init__ Rops blank (VTuple [VTuple (map VFloat [x3; x2; x1]); VTuple (map VFloat [y3; y2; y1])]) = R0 /\
-   Interpolation___init__ Rops blank (VTuple [VFloat x3; VFloat y3; VFloat x2; VFloat y2; VFloat x1; VFloat y1]) = R0) /\
-  Interpolation___init__ Rops blank (VTuple [R0]) = R0.
-Proof.
-  intros x1 x2 x3 y1 y2 y3 H12 H23; cbv zeta.
-  exact (conj (ctor3_123 x1 x2 x3 y1 y2 y3 H12 H23)
-    (conj (ctor3_132 x1 x2 x3 y1 y2 y3 H12 H23)
-    (conj (ctor3_213 x1 x2 x3 y1 y2 y3 H12 H23)
-    (conj (ctor3_231 x1 x2 x3 y1 y2 y3 H12 H23)
-    (conj (ctor3_312 x1 x2 x3 y1 y2 y3 H12 H23)
-    (conj (ctor3_321 x1 x2 x3 y1 y2 y3 H12 H23)
-    (ctor3_copy x1 x2 x3 y1 y2 y3))))))).
-Qed.
-
-Theorem C12_constructor_4 : forall x1 x2 x3 x4 y1 y2 y3 y4, x1 + tol0 <= x2 -> x2 + tol0 <= x3 -> x3 + tol0 <= x4 ->
-  let R0 := obj [x1; x2; x3; x4] [y1; y2; y3; y4] (tab4 x1 x2 x3 x4 y1 y2 y3 y4) in
-  (Interpolation___init__ Rops blank (VTuple [flist [x1; x2; x3; x4]; flist [y1; y2; y3; y4]]) = R0 /\
-   Interpolation___init__ Rops blank (VTuple [VTuple (map VFloat [x1; x2; x3; x4]); VTuple (map VFloat [y1; y2; y3; y4])]) = R0 /\
-   Interpolation___init__ Rops blank (VTuple [VFloat x1; VFloat y1; VFloat x2; VFloat y2; VFloat x3; VFloat y3; VFloat x4; VFloat y4]) = R0) /\
-  (Interpolation___init__ Rops blank (VTuple [flist [x1; x2; x4; x3]; flist [y1; y2; y4; y3]]) = R0 /\
-   Interpolation___init__ Rops blank (VTuple [VTuple (map VFloat [x1; x2; x4; x3]); VTuple (map VFloat [y1; y2; y4; y3])]) = R0 /\
-   Interpolation___init__ Rops blank (VTuple [VFloat x1; VFloat y1; VFloat x2; VFloat y2; VFloat x4; VFloat y4; VFloat x3; VFloat y3]) = R0) /\
-  (Interpolation___init__ Rops blank (VTuple [flist [x1; x3; x2; x4]; flist [y1; y3; y2; y4]]) = R0 /\
-   Interpolation___init__ Rops blank (VTuple [VTuple (map VFloat [x1; x3; x2; x4]); VTuple (map VFloat [y1; y3; y2; y4])]) = R0 /\
-   Interpolation___init__ Rops blank (VTuple [VFloat x1; VFloat y1; VFloat x3; VFloat y3; VFloat x2; VFloat y2; VFloat x4; VFloat y4]) = R0) /\
-  (Interpolation___init__ Rops blank (VTuple [flist [x1; x3; x4; x2]; flist [y1; y3; y4; y2]]) = R0 /\
-   Interpolation___init__ Rops blank (VTuple [VTuple (map VFloat [x1; x3; x4; x2]); VTuple (map VFloat [y1; y3; y4; y2])]) = R0 /\
-   Interpolation___init__ Rops blank (VTuple [VFloat x1; VFloat y1; VFloat x3; VFloat y3; VFloat x4; VFloat y4; VFloat x2; VFloat y2]) = R0) /\
-  (Interpolation___init__ Rops blank (VTuple [flist [x1; x4; x2; x3]; flist [y1; y4; y2; y3]]) = R0 /\
-   Interpolation___init__ Rops blank (VTuple [VTuple (map VFloat [x1; x4; x2; x3]); VTuple (map VFloat [y1; y4; y2; y3])]) = R0 /\
-   Interpolation___init__ Rops blank (VTuple [VFloat x1; VFloat y1; VFloat x4; VFloat y4; VFloat x2; VFloat y2; VFloat x3; VFloat y3]) = R0) /\
-  (Interpolation___init__ Rops blank (VTuple [flist [x1; x4; x3; x2]; flist [y1; y4; y3; y2]]) = R0 /\
-   Interpolation___init__ Rops blank (VTuple [VTuple (map VFloat [x1; x4; x3; x2]); VTuple (map VFloat [y1; y4; y3; y2])]) = R0 /\
-   Interpolation___init__ Rops blank (VTuple [VFloat x1; VFloat y1; VFloat x4; VFloat y4; VFloat x3; VFloat y3; VFloat x2; VFloat y2]) = R0) /\
-  (Interpolation___init__ Rops blank (VTuple [flist [x2; x1; x3; x4]; flist [y2; y1; y3; y4]]) = R0 /\
-   Interpolation___init__ Rops blank (VTuple [VTuple (map VFloat [x2; x1; x3; x4]); VTuple (map VFloat [y2; y1; y3; y4])]) = R0 /\
-   Interpolation___init__ Rops blank (VTuple [VFloat x2; VFloat y2; VFloat x1; VFloat y1; VFloat x3; VFloat y3; VFloat x4; VFloat y4]) = R0) /\
-  (Interpolation___init__ Rops blank (VTuple [flist [x2; x1; x4; x3]; flist [y2; y1; y4; y3]]) = R0 /\
-   Interpolation___init__ Rops blank (VTuple [VTuple (map VFloat [x2; x1; x4; x3]); VTuple (map VFloat [y2; y1; y4; y3])]) = R0 /\
-   Interpolation___init__ Rops blank (VTuple [VFloat x2; VFloat y2; VFloat x1; VFloat y1; VFloat x4; VFloat y4; VFloat x3; VFloat y3]) = R0) /\
-  (Interpolation___init__ Rops blank (VTuple [flist [x2; x3; x1; x4]; flist [y2; y3; y1; y4]]) = R0 /\
-   Interpolation___init__ Rops blank (VTuple [VTuple (map VFloat [x2; x3; x1; x4]); VTuple (map VFloat [y2; y3; y1; y4])]) = R0 /\
-   Interpolation___init__ Rops blank (VTuple [VFloat x2; VFloat y2; VFloat x3; VFloat y3; VFloat x1; VFloat y1; VFloat x4; VFloat y4]) = R0) /\
-  (Interpolation___init__ Rops blank (VTuple [flist [x2; x3; x4; x1]; flist [y2; y3; y4; y1]]) = R0 /\
-   Interpolation___init__ Rops blank (VTuple [VTuple (map VFloat [x2; x3; x4; x1]); VTuple (map VFloat [y2; y3; y4; y1])]) = R0 /\
-   Interpolation___init__ Rops blank (VTuple [VFloat x2; VFloat y2; VFloat x3; VFloat y3; VFloat x4; VFloat y4; VFloat x1; VFloat y1]) = R0) /\
-  (Interpolation___init__ Rops blank (VTuple [flist [x2; x4; x1; x3]; flist [y2; y4; y1; y3]]) = R0 /\
-   Interpolation___init__ Rops blank (VTuple [VTuple (map VFloat [x2; x4; x1; x3]); VTuple (map VFloat [y2; y4; y1; y3])]) = R0 /\
-   Interpolation___init__ Rops blank (VTuple [VFloat x2; VFloat y2; VFloat x4; VFloat y4; VFloat x1; VFloat y1; VFloat x3; VFloat y3]) = R0) /\
-  (Interpolation___init__ Rops blank (VTuple [flist [x2; x4; x3; x1]; flist [y2; y4; y3; y1]]) = R0 /\
-   Interpolation___init__ Rops blank (VTuple [VTuple (map VFloat [x2; x4; x3; x1]); VTuple (map VFloat [y2; y4; y3; y1])]) = R0 /\
-   Interpolation___init__ Rops blank (VTuple [VFloat x2; VFloat y2; VFloat x4; VFloat y4; VFloat x3; VFloat y3; VFloat x1; VFloat y1]) = R0) /\
-  (Interpolation___init__ Rops blank (VTuple [flist [x3; x1; x2; x4]; flist [y3; y1; y2; y4]]) = R0 /\
-   Interpolation___init__ Rops blank (VTuple [VTuple (map VFloat [x3; x1; x2; x4]); VTuple (map VFloat [y3; y1; y2; y4])]) = R0 /\
-   Interpolation___init__ Rops blank (VTuple [VFloat x3; VFloat y3; VFloat x1; VFloat y1; VFloat x2; VFloat y2; VFloat x4; VFloat y4]) = R0) /\
-  (Interpolation___init__ Rops blank (VTuple [flist [x3; x1; x4; x2]; flist [y3; y1; y4; y2]]) = R0 /\
-   Interpolation___init__ Rops blank (VTuple [VTuple (map VFloat [x3; x1; x4; x2]); VTuple (map VFloat [y3; y1; y4; y2])]) = R0 /\
-   Interpolation___init__ Rops blank (VTuple [VFloat x3; VFloat y3; VFloat x1; VFloat y1; VFloat x4; VFloat y4; VFloat x2; VFloat y2]) = R0) /\
-  (Interpolation___init__ Rops blank (VTuple [flist [x3; x2; x1; x4]; flist [y3; y2; y1; y4]]) = R0 /\
-   Interpolation___init__ Rops blank (VTuple [VTuple (map VFloat [x3; x2; x1; x4]); VTuple (map VFloat [y3; y2; y1; y4])]) = R0 /\
-   Interpolation___init__ Rops blank (VTuple [VFloat x3; VFloat y3; VFloat x2; VFloat y2; VFloat x1; VFloat y1; VFloat x4; VFloat y4]) = R0) /\
-  (Interpolation___init__ Rops blank (VTuple [flist [x3; x2; x4; x1]; flist [y3; y2; y4; y1]]) = R0 /\
-   Interpolation___init__ Rops blank (VTuple [VTuple (map VFloat [x3; x2; x4; x1]); VTuple (map VFloat [y3; y2; y4; y1])]) = R0 /\
-   Interpolation___init__ Rops blank (VTuple [VFloat x3; VFloat y3; VFloat x2; VFloat y2; VFloat x4; VFloat y4; VFloat x1; VFloat y1]) = R0) /\
-  (Interpolation___init__ Rops blank (VTuple [flist [x3; x4; x1; x2]; flist [y3; y4; y1; y2]]) = R0 /\
-   Interpolation___init__ Rops blank (VTuple [VTuple (map VFloat [x3; x4; x1; x2]); VTuple (map VFloat [y3; y4; y1; y2])]) = R0 /\
-   Interpolation___init__ Rops blank (VTuple [VFloat x3; VFloat y3; VFloat x4; VFloat y4; VFloat x1; VFloat y1; VFloat x2; VFloat y2]) = R0) /\
-  (Interpolation___init__ Rops blank (VTuple [flist [x3; x4; x2; x1]; flist [y3; y4; y2; y1]]) = R0 /\
-   Interpolation___init__ Rops blank (VTuple [VTuple (map VFloat [x3; x4; x2; x1]); VTuple (map VFloat [y3; y4; y2; y1])]) = R0 /\
-   Interpolation___init__ Rops blank (VTuple [VFloat x3; VFloat y3; VFloat x4; VFloat y4; VFloat x2; VFloat y2; VFloat x1; VFloat y1]) = R0) /\
-  (Interpolation___init__ Rops blank (VTuple [flist [x4; x1; x2; x3]; flist [y4; y1; y2; y3]]) = R0 /\
-   Interpolation___init__ Rops blank (VTuple [VTuple (map VFloat [x4; x1; x2; x3]); VTuple (map VFloat [y4; y1; y2; y3])]) = R0 /\
-   Interpolation___init__ Rops blank (VTuple [VFloat x4; VFloat y4; VFloat x1; VFloat y1; VFloat x2; VFloat y2; VFloat x3; VFloat y3]) = R0) /\
-  (Interpolation___init__ Rops blank (VTuple [flist [x4; x1; x3; x2]; flist [y4; y1; y3; y2]]) = R0 /\
-   Interpolation___init__ Rops blank (VTuple [VTuple (map VFloat [x4; x1; x3; x2]); VTuple (map VFloat [y4; y1; y3; y2])]) = R0 /\
-   Interpolation___init__ Rops blank (VTuple [VFloat x4; VFloat y4; VFloat x1; VFloat y1; VFloat x3; VFloat y3; VFloat x2; VFloat y2]) = R0) /\
-  (Interpolation___init__ Rops blank (VTuple [flist [x4; x2; x1; x3]; flist [y4; y2; y1; y3]]) = R0 /\
-   Interpolation___init__ Rops blank (VTuple [VTuple (map VFloat [x4; x2; x1; x3]); VTuple (map VFloat [y4; y2; y1; y3])]) = R0 /\
-   Interpolation___init__ Rops blank (VTuple [VFloat x4; VFloat y4; VFloat x2; VFloat y2; VFloat x1; VFloat y1; VFloat x3; VFloat y3]) = R0) /\
-  (Interpolation___init__ Rops blank (VTuple [flist [x4; x2; x3; x1]; flist [y4; y2; y3; y1]]) = R0 /\
-   Interpolation___init__ Rops blank (VTuple [VTuple (map VFloat [x4; x2; x3; x1]); VTuple (map VFloat [y4; y2; y3; y1])]) = R0 /\
-   Interpolation___init__ Rops blank (VTuple [VFloat x4; VFloat y4; VFloat x2; VFloat y2; VFloat x3; VFloat y3; VFloat x1; VFloat y1]) = R0) /\
-  (Interpolation___init__ Rops blank (VTuple [flist [x4; x3; x1; x2]; flist [y4; y3; y1; y2]]) = R0 /\
-   Interpolation___init__ Rops blank (VTuple [VTuple (map VFloat [x4; x3; x1; x2]); VTuple (map VFloat [y4; y3; y1; y2])]) = R0 /\
-   Interpolation___init__ Rops blank (VTuple [VFloat x4; VFloat y4; VFloat x3; VFloat y3; VFloat x1; VFloat y1; VFloat x2; VFloat y2]) = R0) /\
-  (Interpolation___init__ Rops blank (VTuple [flist [x4; x3; x2; x1]; flist [y4; y3; y2; y1]]) = R0 /\
-   Interpolation___init__ Rops blank (VTuple [VTuple (map VFloat [x4; x3; x2; x1]); VTuple (map VFloat [y4; y3; y2; y1])]) = R0 /\
-   Interpolation___init__ Rops blank (VTuple [VFloat x4; VFloat y4; VFloat x3; VFloat y3; VFloat x2; VFloat y2; VFloat x1; VFloat y1]) = R0) /\
-  Interpolation___init__ Rops blank (VTuple [R0]) = R0.
-Proof.
-  intros x1 x2 x3 x4 y1 y2 y3 y4 H12 H23 H34; cbv zeta.
-  exact (conj (ctor4_1234 x1 x2 x3 x4 y1 y2 y3 y4 H12 H23 H34)
-    (conj (ctor4_1243 x1 x2 x3 x4 y1 y2 y3 y4 H12 H23 H34)
-    (conj (ctor4_1324 x1 x2 x3 x4 y1 y2 y3 y4 H12 H23 H34)
-    (conj (ctor4_1342 x1 x2 x3 x4 y1 y2 y3 y4 H12 H23 H34)
-    (conj (ctor4_1423 x1 x2 x3 x4 y1 y2 y3 y4 H12 H23 H34)
-    (conj (ctor4_1432 x1 x2 x3 x4 y1 y2 y3 y4 H12 H23 H34)
-    (conj (ctor4_2134 x1 x2 x3 x4 y1 y2 y3 y4 H12 H23 H34)
-    (conj (ctor4_2143 x1 x2 x3 x4 y1 y2 y3 y4 H12 H23 H34)
-    (conj (ctor4_2314 x1 x2 x3 x4 y1 y2 y3 y4 H12 H23 H34)
-    (conj (ctor4_2341 x1 x2 x3 x4 y1 y2 y3 y4 H12 H23 H34)
-    (conj (ctor4_2413 x1 x2 x3 x4 y1 y2 y3 y4 H12 H23 H34)
-    (conj (ctor4_2431 x1 x2 x3 x4 y1 y2 y3 y4 H12 H23 H34)
-    (conj (ctor4_3124 x1 x2 x3 x4 y1 y2 y3 y4 H12 H23 H34)
-    (conj (ctor4_3142 x1 x2 x3 x4 y1 y2 y3 y4 H12 H23 H34)
-    (conj (ctor4_3214 x1 x2 x3 x4 y1 y2 y3 y4 H12 H23 H34)
-    (conj (ctor4_3241 x1 x2 x3 x4 y1 y2 y3 y4 H12 H23 H34)
-    (conj (ctor4_3412 x1 x2 x3 x4 y1 y2 y3 y4 H12 H23 H34)
-    (conj (ctor4_3421 x1 x2 x3 x4 y1 y2 y3 y4 H12 H23 H34)
-    (conj (ctor4_4123 x1 x2 x3 x4 y1 y2 y3 y4 H12 H23 H34)
-    (conj (ctor4_4132 x1 x2 x3 x4 y1 y2 y3 y4 H12 H23 H34)
-    (conj (ctor4_4213 x1 x2 x3 x4 y1 y2 y3 y4 H12 H23 H34)
-    (conj (ctor4_4231 x1 x2 x3 x4 y1 y2 y3 y4 H12 H23 H34)
-    (conj (ctor4_4312 x1 x2 x3 x4 y1 y2 y3 y4 H12 H23 H34)
-    (conj (ctor4_4321 x1 x2 x3 x4 y1 y2 y3 y4 H12 H23 H34)
-    (ctor4_copy x1 x2 x3 x4 y1 y2 y3 y4))))))))))))))))))))))))).
-Qed.
-
 (* ===== tables of ANY length n (1 <= n <= 64: the model's recursion fuel for _newton_diff is 64) =====
    [ideal] The stored lists are symbolic Coq lists xs, ys of equal length whose abscissae are pairwise at
    least tol apart (C12_gen.separated: what set()'s duplicate check guarantees); sortedness is only used
    for the in-range test of __call__.  Proofs by induction over the generated loops (C12_gen.v), the
-   mathematics in Spec/Newton.v.  The constructor set()/_order_points itself is proved for n = 3, 4 only
-   (C12_constructor_3/_4 above). *)
+   mathematics in Spec/Newton.v.  The constructor itself (all float input forms, any order) follows below
+   (C12_constructor_any ff.). *)
 
 (* _newton_diff(0, k) is the divided difference f[x_0..x_k] (Spec.Newton.dd), whatever the table field holds *)
 Theorem C12_newton_diff_any : forall (xs ys : list R) k tb,
@@ -304,7 +151,7 @@ Proof. intros xs ys tbl x Hy Ht Hn Ho Ha. apply C12_gen.call_outside; assumption
    (x, y) pairs are a permutation of the given ones.  C12_order.sx/sy are the lists the loop produces
    (defined by the pure selection function C12_order.sel).  Hence the second half of set() - _order_points,
    _compute_table, __call__ at the nodes - is proved for every n in 1..64 (C12_order.stored_pipeline);
-   the first half (reading the arguments into the raw lists, duplicate test) is proved for n = 3, 4 only. *)
+   the first half (reading the arguments into the raw lists, duplicate test): C12_constructor_any below. *)
 Theorem C12_order_points_any : forall (px py : list R) (tb : val R),
   List.length py = List.length px -> px <> [] -> NoDup px ->
   let xs' := C12_order.sx px in let ys' := C12_order.sy px py in
@@ -412,12 +259,6 @@ Proof.
   - intro Ha. apply (C12_poly.poly_value px py p L Hn S Hd Hdata x Hlo Hhi Ha).
   - intro H3. apply (C12_poly.poly_derivative px py p L Hn S Hd Hdata x H3 Hlo Hhi).
 Qed.
-
-(* [ideal, n = 3 only, two-list form only] duplicated abscissae (any pair closer than tol) are refused with ValueError (three points, two-list form) *)
-Theorem C12_duplicates : forall p1 p2 p3 q1 q2 q3,
-  Rabs (p1 - p2) < tol0 \/ Rabs (p1 - p3) < tol0 \/ Rabs (p2 - p3) < tol0 ->
-  Interpolation___init__ Rops blank (VTuple [flist [p1; p2; p3]; flist [q1; q2; q3]]) = VErr ValueError.
-Proof. exact dup3. Qed.
 
 (* [ideal] root(): the generated while loop (extracted from the generated text as root_loop) keeps the
    bracket invariant; by induction on its fuel, for ANY object whose __call__/derivative return a float
@@ -542,10 +383,6 @@ Redirect "C12_newton_form.assumptions" Print Assumptions C12_newton_form.
 Redirect "C12_polynomial.assumptions" Print Assumptions C12_polynomial.
 Redirect "C12_derivative.assumptions" Print Assumptions C12_derivative.
 Redirect "C12_refused.assumptions" Print Assumptions C12_refused.
-Redirect "C12_newton_diff.assumptions" Print Assumptions C12_newton_diff.
-Redirect "C12_constructor_3.assumptions" Print Assumptions C12_constructor_3.
-Redirect "C12_constructor_4.assumptions" Print Assumptions C12_constructor_4.
-Redirect "C12_duplicates.assumptions" Print Assumptions C12_duplicates.
 Redirect "C12_newton_diff_any.assumptions" Print Assumptions C12_newton_diff_any.
 Redirect "C12_compute_table_any.assumptions" Print Assumptions C12_compute_table_any.
 Redirect "C12_call_any.assumptions" Print Assumptions C12_call_any.
